@@ -166,7 +166,7 @@ class SMMapSetMeta:
             f"#BPMS:"
             + ",\n".join(
                 [
-                    f"{round(float(beat), 2)}={bpm.bpm}"
+                    f"{float(beat)}={bpm.bpm}"
                     for beat, bpm in zip(bpm_beats, self[0].bpms)
                 ]
             )
@@ -174,7 +174,7 @@ class SMMapSetMeta:
             f"#STOPS:"
             + ",\n".join(
                 [
-                    f"{round(float(beat), 2)}={RAConst.msec_to_sec(stop.length)}"
+                    f"{float(beat)}={RAConst.msec_to_sec(stop.length)}"
                     for beat, stop in zip(stop_beats, self[0].stops)
                 ]
             )
